@@ -223,14 +223,28 @@ size_t tr_length_##sfx(const T *s) { \
 TR_LEN(char, char)
 #endif
 #ifdef TR_CONCRETE
-/* bounded whole-function jobs (real initial states, loops unwound): char_traits<char> as the plain loops memcpy / memmove / memset /
- * memcmp / memchr / strlen are — exact, so every trace is a real execution.  Never used by a job that is counted as proved. */
-char *tr_copy_char(char *d, const char *s, size_t n) { for (size_t i = 0; i < n; i++) d[i] = s[i]; return d; }
-char *tr_move_char(char *d, const char *s, size_t n) { if (!__CPROVER_same_object(d, s) || __CPROVER_POINTER_OFFSET(d) <= __CPROVER_POINTER_OFFSET(s)) { for (size_t i = 0; i < n; i++) d[i] = s[i]; } else { for (size_t i = n; i > 0; i--) d[i - 1] = s[i - 1]; } return d; }
-char *tr_assign_char(char *d, size_t n, char c) { for (size_t i = 0; i < n; i++) d[i] = c; return d; }
-int tr_compare_char(const char *a, const char *b, size_t n) { for (size_t i = 0; i < n; i++) { if ((unsigned char)a[i] < (unsigned char)b[i]) return -1; if ((unsigned char)a[i] > (unsigned char)b[i]) return 1; } return 0; }
-const char *tr_find_char(const char *s, size_t n, char c) { for (size_t i = 0; i < n; i++) if (s[i] == c) return s + i; return (const char *)0; }
-size_t tr_length_char(const char *s) { size_t k = 0; while (s[k] != 0) k++; return k; }
+/* bounded whole-function jobs (real initial states, loops unwound): char_traits<char> exactly as memcpy / memmove / memset / memcmp /
+ * memchr / strlen behave, so every trace is a real execution.  Written WITHOUT loops for up to 16 units (the in-object capacity; the
+ * bounded jobs never use more), so that the unwinding bound only has to cover the library's own loops.  A larger count is reported as a
+ * harness limit (undecided), never silently truncated.  Never used by a job that is counted as proved. */
+#define TRC_LIMIT(n) __CPROVER_assert((n) <= 16, "HARNESS: bounded job uses more than 16 units in a char_traits call")
+#define TRC_1(i, S) if ((size_t)(i) < n) { S; }
+#define TRC_16(S0, S1, S2, S3, S4, S5, S6, S7, S8, S9, S10, S11, S12, S13, S14, S15) S0 S1 S2 S3 S4 S5 S6 S7 S8 S9 S10 S11 S12 S13 S14 S15
+#define TRC_FWD(ST) TRC_1(0, ST(0)) TRC_1(1, ST(1)) TRC_1(2, ST(2)) TRC_1(3, ST(3)) TRC_1(4, ST(4)) TRC_1(5, ST(5)) TRC_1(6, ST(6)) TRC_1(7, ST(7)) TRC_1(8, ST(8)) TRC_1(9, ST(9)) TRC_1(10, ST(10)) TRC_1(11, ST(11)) TRC_1(12, ST(12)) TRC_1(13, ST(13)) TRC_1(14, ST(14)) TRC_1(15, ST(15))
+#define TRC_BWD(ST) TRC_1(15, ST(15)) TRC_1(14, ST(14)) TRC_1(13, ST(13)) TRC_1(12, ST(12)) TRC_1(11, ST(11)) TRC_1(10, ST(10)) TRC_1(9, ST(9)) TRC_1(8, ST(8)) TRC_1(7, ST(7)) TRC_1(6, ST(6)) TRC_1(5, ST(5)) TRC_1(4, ST(4)) TRC_1(3, ST(3)) TRC_1(2, ST(2)) TRC_1(1, ST(1)) TRC_1(0, ST(0))
+#define TRC_CP(i) d[i] = s[i]
+#define TRC_SET(i) d[i] = c
+char *tr_copy_char(char *d, const char *s, size_t n) { TRC_LIMIT(n); TRC_FWD(TRC_CP) return d; }
+char *tr_move_char(char *d, const char *s, size_t n) { TRC_LIMIT(n); if (!__CPROVER_same_object(d, s) || __CPROVER_POINTER_OFFSET(d) <= __CPROVER_POINTER_OFFSET(s)) { TRC_FWD(TRC_CP) } else { TRC_BWD(TRC_CP) } return d; }
+char *tr_assign_char(char *d, size_t n, char c) { TRC_LIMIT(n); TRC_FWD(TRC_SET) return d; }
+static void *st_memset16(void *p, int cc, size_t n) { char *d = (char *)p; char c = (char)cc; TRC_LIMIT(n); TRC_FWD(TRC_SET) return p; }
+#define memset(p, c, n) st_memset16(p, c, n)
+#define TRC_CMP(i) if (!done && (unsigned char)a[i] != (unsigned char)b[i]) { r = (unsigned char)a[i] < (unsigned char)b[i] ? -1 : 1; done = 1; }
+int tr_compare_char(const char *a, const char *b, size_t n) { int r = 0; _Bool done = 0; TRC_LIMIT(n); TRC_FWD(TRC_CMP) return r; }
+#define TRC_FND(i) if (r == (const char *)0 && s[i] == c) r = s + i
+const char *tr_find_char(const char *s, size_t n, char c) { const char *r = (const char *)0; TRC_LIMIT(n); TRC_FWD(TRC_FND) return r; }
+#define TRC_LEN(i) if (!done) { if (s[i] == 0) { k = i; done = 1; } }
+size_t tr_length_char(const char *s) { size_t k = 0, n = 16; _Bool done = 0; TRC_FWD(TRC_LEN) __CPROVER_assert(done, "HARNESS: bounded job uses a C string of 16 or more bytes"); return k; }
 #endif
 TR_LEN(uint16_t, char16_t)
 TR_LEN(uint32_t, char32_t)
